@@ -585,7 +585,7 @@ def model_request(g, model, text: str, start: str | None, settings: Settings, se
     names = {name: i for i, (name, _, _) in enumerate(g['rules'])}
     tabs = Tables()
     eff = effective_config(model, text, settings, cfg=cfg)
-    opt = model.optimized() if mode != 'g' else model
+    opt = model.optimized()       # the code generator optimizes the grammar before walking it too (ngparser_gen.pythongen)
     rules_sx = []
     for name, decorators, e in g['rules']:
         r = opt.rulemap[name]
@@ -608,7 +608,7 @@ def model_request(g, model, text: str, start: str | None, settings: Settings, se
            f'(unsafe {" ".join(sx(k) for k in unsafe_keys())}) '
            f'(ecfg {int(eff.memoization)} {int(eff.left_recursion)} {int(eff.prune)} {eff.cap} {int(eff.parseinfo)} '
            f'({" ".join(sx(k) for k in eff.keywords)})) '
-           f'{sem_sx(semspec, names)} (lineat {" ".join(map(str, lineat_table(text)))}) {0 if mode == "g" else 1})')
+           f'{sem_sx(semspec, names)} (lineat {" ".join(map(str, lineat_table(text)))}) 1)')
     return req
 
 
